@@ -458,21 +458,48 @@ func c19gLockedStoresAreLockedReads(c *eng.Ctx) {
 			if arg == nil {
 				continue
 			}
-			for _, o := range eng.Origins(arg) {
-				ex, ok := o.Val.(*ssa.Extract)
-				if !ok || ex.Index != 0 {
-					continue
+			type src struct {
+				v    ssa.Value
+				held eng.HeldFunc
+				all  bool
+			}
+			srcs := []src{{arg, held, entered}}
+			if p, isParam := arg.(*ssa.Parameter); isParam && entered {
+				// the entry is the caller's: judge the value each (lock-holding) caller hands in
+				srcs = nil
+				for j, q := range fn.Params {
+					if q != p {
+						continue
+					}
+					for _, caller := range c.P.Funcs {
+						if caller.Pkg != fn.Pkg {
+							continue
+						}
+						for _, cs := range eng.Calls(caller, "^"+regexp.QuoteMeta(eng.FuncName(fn))+"$") {
+							if cs.Common().StaticCallee() == fn && j < len(cs.Common().Args) {
+								srcs = append(srcs, src{cs.Common().Args[j], eng.MustHold(caller, tokenLockCall("Lock"), tokenLockCall("Unlock")), heldByEveryCaller(c, caller)})
+							}
+						}
+					}
 				}
-				lk, ok := ex.Tuple.(*ssa.Call)
-				if !ok || !strings.HasSuffix(eng.CalleeName(&lk.Call), "vault.(*TokenStore).lookupInternal") {
-					continue
-				}
-				n++
-				site := "entry stored under the token lock was read under it"
-				if entered || held(lk) {
-					c.OK(fn, site, s.Pos(), "lookupInternal and the store both execute with the per-token lock held")
-				} else {
-					c.Violation(fn, site, s.Pos(), "the entry written back under the per-token lock comes from a lookupInternal made before the lock was taken: a concurrent UseToken decrement (or revocation marker) stored in between is overwritten", nil)
+			}
+			for _, sr := range srcs {
+				for _, o := range eng.Origins(sr.v) {
+					ex, ok := o.Val.(*ssa.Extract)
+					if !ok || ex.Index != 0 {
+						continue
+					}
+					lk, ok := ex.Tuple.(*ssa.Call)
+					if !ok || !strings.HasSuffix(eng.CalleeName(&lk.Call), "vault.(*TokenStore).lookupInternal") {
+						continue
+					}
+					n++
+					site := "entry stored under the token lock was read under it"
+					if sr.all || sr.held(lk) {
+						c.OK(fn, site, s.Pos(), "lookupInternal and the store both execute with the per-token lock held")
+					} else {
+						c.Violation(fn, site, s.Pos(), "the entry written back under the per-token lock comes from a lookupInternal made before the lock was taken: a concurrent UseToken decrement (or revocation marker) stored in between is overwritten", nil)
+					}
 				}
 			}
 		}
